@@ -6,6 +6,7 @@ from fractions import Fraction
 from sa import AnalysisError
 from sa.kinds import (key, utext, call_name, recv_text, calls_in, node_calls, canon_compare, oriented)
 from sa.cfg import walk_calls, walk_nodes
+from sa.astutil import canon_text as ct
 
 EXPLANATION = (
     "Narrow decision of C17: (R1) the ladder constants are compared with Betfair's published increment table "
@@ -175,9 +176,9 @@ def run(ctx, rep):
     good = len(sk) == 1 and all(cfgm.nodes[mm].kind == "return" for l, mm in sk[0].succ if l == "T")
     rep.check(good, "R2", key(ms, None, "minimum-stake rules are skipped only when min_bet_validation is off"), ms)
     conds = {utext(n.exprs[0]): n for n in cfgm.live_nodes() if n.kind == "cond"}
-    lim = "size < client.min_bet_size" in conds and "order.order_type.price * size < client.min_bet_payout" in conds
+    lim = ct("size < client.min_bet_size") in conds and ct("order.order_type.price * size < client.min_bet_payout") in conds
     if lim:
-        a, b = conds["size < client.min_bet_size"], conds["order.order_type.price * size < client.min_bet_payout"]
+        a, b = conds[ct("size < client.min_bet_size")], conds[ct("order.order_type.price * size < client.min_bet_payout")]
         lim = [mm for l, mm in a.succ if l == "T"] == [b.id] and any(
             call_name(c) == "_on_error" for l, mm in b.succ if l == "T" for c in calls_in(cfgm.nodes[mm]))
         lim = lim and ("order_type == OrderTypes.LIMIT", True) in [(utext(g.exprs[0]), pol) for g, pol in cfgm.guards(a.id)]
